@@ -16,7 +16,14 @@ def run_property(pid: str, tier: str, root: str, overlay=None, quiet=False, writ
     mod = importlib.import_module(f"sa.props.{pid.lower()}")
     tree = Tree(root, overlay)
     rep = Report(pid, tier, root, quiet=quiet)
-    mod.run(tree, rep, tier)
+    try:
+        mod.run(tree, rep, tier)
+    except AnalysisError as e:
+        # a construct already reported by one rule stands on its own: the later rule that could not be decided is
+        # recorded next to it.  Without a finding the run has no verdict (exit 2).
+        if not rep.new_findings():
+            raise
+        rep.note(f"UNDECIDED (analysis stopped after the finding(s) reported): {str(e)[:300]}")
     rep.analysed["files consulted"] = len(tree.consulted)
     rep.analysed["tree digest (consulted files)"] = tree.digest()
     return rep, tree
